@@ -504,13 +504,20 @@ template <class G> G constructFromList(const std::vector<std::tuple<unsigned, un
 // --------------------------------------------------------------------------- public-API key
 // Everything the public API shows about the object, neighbour ORDER included (see DESIGN.md E1).
 // `complete` additionally records, for every pair, whether the throwing label getter throws.
-template <class G> std::string keyOf(const G &g, bool complete) {
+// `canonical`: neighbour lists as sorted multisets (for comparisons where the ORDER of a list is not specified,
+// e.g. a copy, or a graph built by a constructor, against an independently built equal graph).
+template <class G> std::string keyOf(const G &g, bool complete, bool canonical = false) {
     using T = Tr<G>;
     std::ostringstream o;
     size_t n = g.getSize();
     o << n << "|" << g.getEdgeNumber() << "|";
     for (VertexIndex v = 0; v < n; ++v) {
-        for (auto w : g.getOutNeighbours(v)) o << w << ",";
+        if (canonical) {
+            std::vector<VertexIndex> srt(g.getOutNeighbours(v).begin(), g.getOutNeighbours(v).end());
+            std::sort(srt.begin(), srt.end());
+            for (auto w : srt) o << w << ",";
+        } else
+            for (auto w : g.getOutNeighbours(v)) o << w << ",";
         o << ";";
     }
     if constexpr (T::fam == PLAIN) {
